@@ -57,7 +57,7 @@ PROPS = {
         rule="catalogs with RRsets of 10-80 addresses, 200-octet TXT records, owner names of 120-190 octets with MX sets "
              "(defeating compression), referrals with and without glue; request EDNS payload sizes drawn from "
              "{0,1,511,512,513,600,700,1232,1233,2000,4096,65535,random}; server sizes 512..65535; every request is sent "
-             "over UDP and over TCP. distinct = (outcome kind: same / tc / partial, size bucket of the complete response); the UDP response buffer handed to the server is the configured payload size, slightly larger, random, or 65535 octets (the limit must come from the server, not from the buffer)",
+             "over UDP and over TCP. distinct = (outcome kind: same / tc / partial, size bucket of the complete response); the UDP response buffer handed to the server is the configured payload size, slightly larger, random, or 65535 octets (the limit must come from the server, not from the buffer); a third of the scenarios carry TSIG keys (key names related to zone names, up to 190 octets) and a third of their requests are validly signed, so the space taken by the TSIG record takes part in every size decision (the comparison with the TCP response then ignores the TSIG records themselves)",
         assumptions=COMMON_ASSUMPTIONS + ["no TSIG and no RRL in this workload (byte-equality of the twin responses)"],
         quick=plans(dict(build="dbg", nshards=16)),
         thorough=plans(dict(build="dbg", nshards=16), dict(build="rel", nshards=16), dict(build="asan", nshards=16, scale=0.2), dict(build="miri", nshards=16, timeout=3000)),
@@ -71,7 +71,7 @@ PROPS = {
              "up to 48 names per catalog (every owner and RDATA target, parents, children, grandchildren, random case) x 3 "
              "query types out of {A,AAAA,NS,CNAME,SOA,MX,TXT,SRV,ANY,PTR,MB,TYPE99}; TCP or UDP with EDNS 65535. "
              "RCODE, AA, answer and authority (multisets), additional (required <= actual <= allowed) are compared. "
-             "distinct = (expected outcome kind, response shape, wildcard synthesis) classes",
+             "distinct = (expected outcome kind, response shape, wildcard synthesis) classes; a third of the scenarios carry TSIG keys and half of their TCP queries are validly signed (same answer expected)",
         assumptions=COMMON_ASSUMPTIONS + [
             "queries whose outcome the RFCs leave open are counted and not judged: wildcard owners with NS records "
             "(RFC 4592 §4.2), several CNAME/SOA records at one name, malformed RDATA that processing must interpret, "
@@ -86,7 +86,7 @@ PROPS = {
                   "over decoded responses, for HashMapTreeCatalog and SingleZoneCatalog",
         rule="catalogs of 1-5 entries over nested names in IN/CH/HS/CLASS65280 in the states loaded / not-yet-loaded / "
              "failed; requests with opcodes 0-15, with and without a question, QCLASS ANY/NONE/unknown, QTYPE "
-             "AXFR/IXFR/MAILA/MAILB, names inside, between and outside the entries. distinct = (expected rule, response shape); half of the catalogs are edited histories: 1-3 decoy entries below, above and beside the lasting entries are inserted and removed again in random order",
+             "AXFR/IXFR/MAILA/MAILB, names inside, between and outside the entries. distinct = (expected rule, response shape); half of the catalogs are edited histories: 1-3 decoy entries below, above and beside the lasting entries are inserted and removed again in random order; a third of the scenarios carry TSIG keys and a third of their requests are validly signed (same outcome expected)",
         assumptions=COMMON_ASSUMPTIONS,
         quick=plans(dict(build="dbg", nshards=16)),
         thorough=plans(dict(build="dbg", nshards=16), dict(build="rel", nshards=16), dict(build="asan", nshards=16, scale=0.2), dict(build="miri", nshards=16, timeout=3000)),
@@ -108,7 +108,7 @@ PROPS = {
         rule="requests with 0/1/2 OPT records at any position of any section, OPT TTL octets drawn from version x "
              "{0,1,0x7f,0x80,0xff} extended-RCODE bytes x flag words, payload sizes incl. 0/511/512/65535/random, non-root "
              "owners, valid and damaged options, other additional records before and after; server payload sizes 512..65535. "
-             "distinct = (OPT reached, payload bucket / BADVERS / owner error, response shape)",
+             "distinct = (OPT reached, payload bucket / BADVERS / owner error, response shape); a third of the scenarios carry TSIG keys and a third of their requests are validly signed",
         assumptions=COMMON_ASSUMPTIONS,
         quick=plans(dict(build="dbg", nshards=16)),
         thorough=plans(dict(build="dbg", nshards=16), dict(build="rel", nshards=16), dict(build="asan", nshards=16, scale=0.2), dict(build="miri", nshards=16, timeout=3000)),
@@ -250,7 +250,7 @@ PROPS = {
              "mnemonics incl. NULL/OPT/TSIG and TYPE10/41/250, \\#, numbers, addresses), and F-rendered valid files with 1-3 "
              "mutations (truncate, delete, insert, replace, forbidden type substituted). Every yielded record must have a type "
              "other than NULL/OPT/TSIG and RDATA accepted by the reference validators; nothing may follow an error. "
-             "distinct = (input kind, records yielded, ended in error)",
+             "distinct = (input kind, records yielded, ended in error); every input is also parsed through Parser::records_only() (same records and line numbers up to the first $INCLUDE or error, then exactly one error, then nothing), and a sixth of the inputs get a well-formed or malformed $INCLUDE line inserted at a line boundary",
         assumptions=COMMON_ASSUMPTIONS + ["termination is bounded by the finite input; a watchdog firing would be reported as inconclusive"],
         quick=plans(dict(build="dbg", nshards=16), dict(build="miri", nshards=4, timeout=900)),
         thorough=plans(dict(build="dbg", nshards=16), dict(build="rel", nshards=16), dict(build="asan", nshards=16, scale=0.2), dict(build="miri", nshards=16, timeout=3000)),
